@@ -16,14 +16,31 @@ class BQLSemantics:
     def null(self, value):
         return None
 
+    def _invalid(self, rule, value):
+        # A literal matching the grammar but denoting no value is a syntax
+        # error. Failing the rule instead would let the parser backtrack
+        # and read the text as something else.
+        tokenizer = self._ctx.tokenizer
+        endpos = tokenizer.pos
+        pos = endpos - len(value)
+        line = tokenizer.line_info(pos).line
+        return ParseError(tatsu.infos.ParseInfo(tokenizer, rule, pos, endpos, line, []))
+
     def integer(self, value):
-        return int(value)
+        try:
+            return int(value)
+        except ValueError as exc:
+            # Python limits the number of digits in str to int conversions.
+            raise self._invalid('integer', value) from exc
 
     def decimal(self, value):
         return decimal.Decimal(value)
 
     def date(self, value):
-        return datetime.datetime.strptime(value, '%Y-%m-%d').date()
+        try:
+            return datetime.datetime.strptime(value, '%Y-%m-%d').date()
+        except ValueError as exc:
+            raise self._invalid('date', value) from exc
 
     def string(self, value):
         return value[1:-1]
